@@ -126,7 +126,8 @@ class PySnmpCodeGen(IntermediateCodeGen):
             for key, value in tuple(dct.items()):
                 if isinstance(value, dict):
                     translateOids(value)
-                elif key == 'oid':
+                elif key == 'oid' and isinstance(value, (str, unicode)):
+                    # (an enumeration label or a named bit may be spelled "oid" just as well)
                     dct[key] = tuple(int(x) for x in value.split('.'))
 
         translateOids(context)
